@@ -327,9 +327,22 @@ class CounterCount(Family):
             ctx.prove("post.no hit: the state is untouched", z3.BoolVal(t._values.t.eq(s0) and len(log) == 4 and not made))
             return
         ctx.prove("post.hits are turned into flat positions of the key array", z3.BoolVal(log[-1][0] == "ravel_multi_index" and log[-1][2][0] is rows and log[-1][2][1] is offs))
-        cnt = ctx.ghost["bincount"][-1]["cnt"]
+        # the specification's own counting function (not the implementation's): hits(k, j) = #{u < j : flat position of hit u == k}
+        hits = z3.Function(fresh_name("hits"), z3.IntSort(), z3.IntSort(), z3.IntSort())
+        ctx.assume_forall("hits.base (definition)", lambda k_: hits(k_, 0) == 0)
+        ctx.assume_forall("hits.step (definition)", lambda k_, j_: z3.Implies(z3.And(0 <= j_, j_ < h), hits(k_, j_ + 1) == hits(k_, j_) + z3.If(flatpos.fn(j_) == k_, 1, 0)), arity=2)
         p = z3.Int("p")
         ctx.skolem(z3.And(0 <= p, p < size))
+        for bc in ctx.ghost.get("bincount", []):
+            # bridge to the histogram the code happens to use (numpy.bincount's contract has its own counting recurrence): equal by induction on j
+            bcnt, j = bc["cnt"], z3.Int("j")
+            ctx.skolem(z3.And(0 <= j, j < h))
+            ctx.prove("bridge.base: no hits counted before the first", bcnt(p, 0) == hits(p, 0), pool=[p, z3.IntVal(0)], live=[j])
+            ctx.prove("bridge.step: one more hit", z3.Implies(z3.And(bc["m"] == h, bcnt(p, j) == hits(p, j)), bcnt(p, j + 1) == hits(p, j + 1)), pool=[p, j, j + 1])
+            ctx.prove("bridge.the histogram is taken over all hits", bc["m"] == h, live=[j])
+            ctx.assume_forall("bridge (by induction on j): the code's histogram counts the hits", lambda k_, j_, bcnt=bcnt: z3.Implies(
+                z3.And(0 <= k_, k_ < size, 0 <= j_, j_ <= h), bcnt(k_, j_) == hits(k_, j_)), arity=2)
+        cnt = hits
         if kind == "array":
             new = t._values.ravel()
             ctx.prove("post.values'[p] == values[p] + number of hits at p", new.get(p) == old_vals(p) + cnt(p, h))
@@ -340,6 +353,43 @@ class CounterCount(Family):
             ctx.prove("post.values'[p] == shared value + number of hits at p", data.get(p) == base + cnt(p, h))
             ctx.prove("post.one value per key cell", dim_term(data.shape_[0]) == size)
             ctx.prove("post.the new values get the key array's geometry", z3.BoolVal(made[0][1] is Keys._shape and t._values[0] == "NEW-VALUES"))
+
+    def concrete(self, case):
+        """the real Counter against collections.Counter: totals after every batch, for the key set / modulus / initial values / batches of the case"""
+        import collections
+        from npstructures import Counter
+        keys = np.asarray(case["keys"])
+        init = case.get("initial", 0)
+        kw = {"mod": case["mod"]} if case.get("mod") else {}
+        try:
+            c = Counter(keys, np.asarray(init) if isinstance(init, list) else init, **kw)
+            truth = collections.Counter()
+            base = init if isinstance(init, list) else [init] * len(keys)
+            for b in case["batches"]:
+                c.count(np.asarray(b, dtype=keys.dtype))
+                truth.update(b)
+                got = np.asarray(c[keys]).tolist()
+                exp = [int(i) + truth[int(k)] for i, k in zip(base, keys.tolist())]
+                if got != exp:
+                    return {"msg": f"Counter(keys={keys.tolist()}, initial={init}, {kw}) after batches {case['batches']}: {got}, expected {exp}", "sig": "wrong:counter-count"}
+        except Exception as e:
+            return {"msg": f"Counter(keys={keys.tolist()}, initial={init}, {kw}) with batches {case['batches']} raised {type(e).__name__}: {e}", "sig": f"raised:{type(e).__name__}:counter-count"}
+
+    def concretise(self, kind, model, ghost):
+        # the state of the kind; hits repeat inside one batch, few hits against many keys, non-keys in occupied and in empty buckets
+        keys = [3 * i + 1 for i in range(12)]
+        init = {"array": list(range(12)), "nonzero-scalar": 5}.get(kind, 0)
+        return {"keys": keys, "initial": init, "mod": 17, "batches": [[4, 4, 4, 34], [7, 7, 2, 21, 7], []]}
+
+    def bounded_cases(self, tier, seed):
+        for nk in (1, 2, 5, 12, 40):
+            keys = [3 * i + 1 for i in range(nk)]
+            for mod in (None, 1, 7, 61):
+                for init in (0, 5, list(range(nk))):
+                    k0, k1 = keys[0], keys[-1]
+                    for batches in ([[k0, k0, k0, k1]], [[k1], [k0, k0]], [[], [k1, k1, 2, 2, k1 + 7 * 61]], [[5], [k0, 5, k0], [k1, k1, k1, k1]],
+                                    [keys + keys, [k0]], [[k0], keys, [k1, k1]]):
+                        yield {"keys": keys, "initial": init, "mod": mod, "batches": batches}
 
 
 @register
